@@ -69,7 +69,27 @@ type Case struct {
 	Avoid bool `json:"avoid,omitempty"`
 }
 
-func drawOp(t *rapid.T, actor, ndocs int, label string) Step {
+// drawOp draws one operation. pref >= 0 is the document the actor prefers (affinity mode: the
+// transactions mostly work on different documents, so that overlapping transactions with disjoint
+// write sets, which must both commit, are well represented).
+func drawOp(t *rapid.T, actor, ndocs, pref int, label string) Step {
+	st := drawOp0(t, actor, ndocs, label)
+	if pref >= 0 {
+		switch st.K {
+		case "create", "update", "delete", "get":
+			if rapid.IntRange(0, 7).Draw(t, label+"own") != 3 {
+				st.D = pref % ndocs
+			}
+		case "list", "count":
+			if rapid.IntRange(0, 3).Draw(t, label+"narrow") != 2 {
+				st = Step{A: actor, K: "get", D: pref % ndocs, R: st.R}
+			}
+		}
+	}
+	return st
+}
+
+func drawOp0(t *rapid.T, actor, ndocs int, label string) Step {
 	st := Step{A: actor}
 	// weights: update 6, create 4, delete 3, get 4, list 3, count 1, indexes 1 (per 22), DDL ~1/22
 	k := rapid.IntRange(0, 22).Draw(t, label+"kind")
@@ -152,18 +172,23 @@ func drawCase(t *rapid.T) Case {
 	}
 	c.Index = rapid.SampledFrom([]string{"", "", "", "", "age", "age", "tag", "utag", "utag"}).Draw(t, "index")
 	nt := rapid.IntRange(2, 3).Draw(t, "ntxn")
+	affinity := nd >= 2 && rapid.IntRange(0, 2).Draw(t, "affinity") == 1
 	queues := make([][]Step, nt+1)
 	n0 := rapid.IntRange(0, 4).Draw(t, "nops0")
 	for i := 0; i < n0; i++ {
-		queues[0] = append(queues[0], drawOp(t, 0, nd, "a0."))
+		queues[0] = append(queues[0], drawOp(t, 0, nd, -1, "a0."))
 	}
 	for a := 1; a <= nt; a++ {
-		ro := rapid.IntRange(0, 11).Draw(t, "readonly") == 0
+		ro := rapid.IntRange(0, 15).Draw(t, "readonly") == 7
 		conc := rapid.IntRange(0, 4).Draw(t, "concurrentTxn") == 0
 		queues[a] = append(queues[a], Step{A: a, K: "begin", U: ro, C: conc})
 		n := rapid.IntRange(1, 6).Draw(t, "nops")
 		for i := 0; i < n; i++ {
-			queues[a] = append(queues[a], drawOp(t, a, nd, fmt.Sprintf("a%d.", a)))
+			pref := -1
+			if affinity {
+				pref = a - 1
+			}
+			queues[a] = append(queues[a], drawOp(t, a, nd, pref, fmt.Sprintf("a%d.", a)))
 		}
 		end := "commit"
 		if rapid.IntRange(0, 4).Draw(t, "end") == 0 {
